@@ -118,7 +118,12 @@ func (r *partIndex) list(key index.Key) (tableIndexIterator, <-chan struct{}) {
 	return partList(r.unique, &r.tree, key)
 }
 
-var emptyTableIndexIterator = &singletonTableIndexIterator{}
+// emptyTableIndexIterator yields nothing.
+type emptyIndexIterator struct{}
+
+func (emptyIndexIterator) All(yield func([]byte, object) bool) {}
+
+var emptyTableIndexIterator tableIndexIterator = emptyIndexIterator{}
 
 func partList(unique bool, tree part.Ops[object], key index.Key) (tableIndexIterator, <-chan struct{}) {
 	if unique {
@@ -627,9 +632,9 @@ type singletonTableIndexIterator struct {
 }
 
 func (s *singletonTableIndexIterator) All(yield func([]byte, object) bool) {
-	if s.key != nil {
-		yield(s.key, s.obj)
-	}
+	// The key may be nil (e.g. a query with index.String("")): the object
+	// found under it is still the result.
+	yield(s.key, s.obj)
 }
 
 var _ tableIndexIterator = &singletonTableIndexIterator{}
